@@ -23,6 +23,7 @@ const (
 	aNilBs             // returns an execution without bindings (a guard's rejection)
 	aNilExe            // returns neither an execution nor an error
 	aFailInPlace       // deletes a binding from the map it was given, then fails, returning that map
+	aBareExe           // returns an Execution built by hand (&Execution{Bs: ...}: no Events inside)
 	aKinds
 )
 
@@ -162,6 +163,9 @@ func (s *stubSpec) action(log *stubLog) Action {
 			delete(in, s.key)
 			exe = NewExecution(in)
 			err = errors.New("stub " + s.name + " failed")
+		case aBareExe:
+			// an action written without the constructor: nothing to record events in, and nothing emitted
+			return &Execution{Bs: in.Copy()}, nil
 		}
 		for i := 0; i < s.emits; i++ {
 			exe.AddEmitted(map[string]interface{}{"from": s.name, "n": float64(i)})
@@ -217,6 +221,7 @@ var (
 	kindsAction     = []int{aIdent, aSet, aDel, aReplace, aFail, aFailPartial, aNilBs}
 	kindsGuard      = []int{aIdent, aSet, aNilBs, aFail}
 	kindsAll        = []int{aIdent, aSet, aDel, aReplace, aFail, aFailPartial, aNilBs, aNilExe}
+	kindsC07        = []int{aIdent, aSet, aDel, aReplace, aFail, aFailPartial, aNilBs, aNilExe, aBareExe}
 	kindsC18        = []int{aIdent, aSet, aDel, aReplace, aFail, aFailPartial, aNilBs, aFailInPlace}
 )
 
